@@ -2,7 +2,11 @@
 
 package actor
 
-import "github.com/kercylan98/vivid"
+import (
+	"sync"
+
+	"github.com/kercylan98/vivid"
+)
 
 // C19 — event stream: table semantics against a reference set.
 
@@ -140,4 +144,73 @@ func VH_C19_termination() {
 	vrtAssert(len(w.boxes[s].all) == n, "no-delivery-after-termination")
 	vrtAssert(len(w.rootBox.all) == root, "no-dead-letter-for-event-after-termination")
 	vrtReach("terminated")
+}
+
+// VH_C19_concurrent: event-stream operations of DIFFERENT actors racing each
+// other (Engine A, preemptive mode + race detector). After every call has
+// returned, the tables are consistent, every actor whose Subscribe returned
+// (and that did not unsubscribe) receives the next published event exactly
+// once, and an actor whose UnsubscribeAll returned receives nothing and has no
+// entry left.
+func VH_C19_concurrent() {
+	w := vhNewWorld()
+	s0 := w.spawn(w.root, "s0", &vhActor{name: "s0"})
+	s1 := w.spawn(w.root, "s1", &vhActor{name: "s1"})
+	pub := w.spawn(w.root, "pub", &vhActor{name: "pub"})
+	es := w.sys.eventStream.(*eventStream)
+	var wg sync.WaitGroup
+	run := func(f func()) {
+		wg.Add(1)
+		go func() {
+			f()
+			wg.Done()
+		}()
+	}
+	want0, want1 := false, false
+	switch vrtParam("variant", 0) {
+	case 0: // the first two subscribers of a type arrive together
+		run(func() { es.Subscribe(s0, vhEvtA{}) })
+		run(func() { es.Subscribe(s1, vhEvtA{}) })
+		want0, want1 = true, true
+	case 1: // a Subscribe while the type's last subscriber leaves
+		es.Subscribe(s1, vhEvtA{})
+		run(func() { es.Subscribe(s0, vhEvtA{}) })
+		run(func() { es.UnsubscribeAll(s1) })
+		want0, want1 = true, false
+	case 2: // a Subscribe while the type's last subscriber unsubscribes from that type
+		es.Subscribe(s1, vhEvtA{})
+		es.Subscribe(s1, vhEvtB{})
+		run(func() { es.Subscribe(s0, vhEvtA{}) })
+		run(func() { es.Unsubscribe(s1, vhEvtA{}) })
+		want0, want1 = true, false
+	case 3: // subscribing to two types from two goroutines (same subscriber entry)
+		run(func() { es.Subscribe(s0, vhEvtA{}) })
+		run(func() { es.Subscribe(s0, vhEvtB{}) })
+		run(func() { es.Subscribe(s1, vhEvtA{}) })
+		want0, want1 = true, true
+	}
+	wg.Wait()
+	vrtRaceOff()
+	b0, b1 := len(w.boxes[s0].all), len(w.boxes[s1].all)
+	es.Publish(pub, vhEvtA{N: 7})
+	g0, g1 := len(w.boxes[s0].all)-b0, len(w.boxes[s1].all)-b1
+	if want0 {
+		vrtAssert(g0 == 1, "publish-delivers-once-to-each-current-subscriber")
+	} else {
+		vrtAssert(g0 == 0, "publish-delivers-to-nobody-else")
+	}
+	if want1 {
+		vrtAssert(g1 == 1, "publish-delivers-once-to-each-current-subscriber")
+	} else {
+		vrtAssert(g1 == 0, "publish-delivers-to-nobody-else")
+	}
+	ta := reflectTypeOf(vhEvtA{})
+	for i, sc := range []*Context{s0, s1} {
+		want := []bool{want0, want1}[i]
+		_, in1 := es.subscribers[ta][sc.ref.GetPath()]
+		_, in2 := es.subscriberTypes[sc.ref.GetPath()][ta]
+		vrtAssert(in1 == want, "subscribers-table-matches-reference")
+		vrtAssert(in2 == want, "subscriber-types-table-matches-reference")
+	}
+	vrtReach("joined")
 }
